@@ -14,6 +14,7 @@ mod scen_inject;
 mod scen_neigh;
 mod scen_peer;
 mod scen_raw;
+mod scen_reasm;
 mod scen_slaac;
 mod scen_tcp;
 mod tap;
@@ -84,6 +85,10 @@ fn slaac_scn(t: &mut Tape, p: Props, thorough: bool, trace: bool) -> Outcome {
 
 fn raw_scn(t: &mut Tape, p: Props, thorough: bool, trace: bool) -> Outcome {
     scen_raw::run(t, p, thorough, trace)
+}
+
+fn reasm_scn(t: &mut Tape, p: Props, thorough: bool, trace: bool) -> Outcome {
+    scen_reasm::run(t, p, thorough, trace)
 }
 
 fn dhcp_scn(t: &mut Tape, p: Props, thorough: bool, trace: bool) -> Outcome {
@@ -204,7 +209,7 @@ fn defs() -> &'static [CheckDef] {
             CheckDef {
                 id: "C12",
                 props: Props::of(&["C12"]),
-                scens: vec![Scen { name: "dgram-pair-frag", weight: 2, run: dgram_frag }, Scen { name: "dgram-pair-frag-sloppy", weight: 1, run: dgram_frag_sloppy }],
+                scens: vec![Scen { name: "dgram-pair-frag", weight: 2, run: dgram_frag }, Scen { name: "dgram-pair-frag-sloppy", weight: 1, run: dgram_frag_sloppy }, Scen { name: "scripted-fragments", weight: 2, run: reasm_scn }, Scen { name: "neighbour-population", weight: 1, run: neigh_scn }],
                 rule: "one run = two real IPv4 nodes sending oversized UDP/ICMP datagrams (and oversized echo replies) back to back, MTU 68..1507 over every residue mod 8, fragments permuted/duplicated/lost/delayed by the link, device refusing between fragments; independent reassembly of what the sender emits and of what reaches the receiver; non-trivial = at least one datagram actually fragmented AND a fault fired; distinct = event-log hash",
                 assumptions: vec!["must-deliver is only claimed when a conservative mirror of the single reassembly slot says the slot was free and <= 3 gaps were ever needed"],
                 real: REAL,
@@ -219,6 +224,7 @@ fn defs() -> &'static [CheckDef] {
                 rule: "neighbour-population: one real node on Ethernet (IPv4/ARP or IPv6/NDISC) with 3 UDP sockets sending to 2..13 on-link neighbours (cache has 8 slots) and off-link destinations behind two gateways (default + specific route, each with optional expiry), against scripted neighbours that answer solicitations timely, late (to 61 s), never, or first with a non-unicast hardware address / an off-link sender, announce themselves unsolicited, change hardware address; own-address changes; time advances per poll_at, random, and landing on +-1 us of the 1 s rate-limit and 60 s expiry instants; plus the tap oracle on the two-node Ethernet datagram runs; non-trivial = >= 3 unicast frames checked and >= 2 solicitations; distinct = event-log hash",
                 assumptions: vec![
                     "learned(next hop, hardware address) is an over-approximation: every valid announcement delivered to the node within 60 s counts, whether or not the cache kept it (8 slots)",
+                    "the freshness of the hardware address is judged at the first fragment of a datagram; later fragments must go where the first one went",
                     "solicitation rate is checked globally (any two ARP requests / multicast neighbour solicitations >= 1 s apart), which is what the statement says and what the shared cache timer implements",
                 ],
                 real: REAL,
